@@ -37,6 +37,8 @@ THEOREMS = ["JanetModel.Props.C03." + t for t in (
     "laws_on_nan_free_values", "nan_breaks_the_laws", "struct_put_ignores_nan_key", "struct_by_final_map_nan", "struct_put_guards_tie",
     # session 4: janet_symbol_gen on the symbol-cache model
     "gensym_probe_loop_tie", "gensym_fresh", "symcache_unique_gensym",
+    # session 4: the explicit traversal stack of janet_equals / janet_compare computes the recursive definitions
+    "compare_traversal_stack_is_recursive", "equals_traversal_stack_is_recursive", "compare_traversal_loop_invariant",
 )]
 # which law of a symbol-cache scenario to report first (the most direct statement of the property comes first)
 SYM_LAW_ORDER = ["gensym-duplicates-live-symbol", "symbol-duplicate-live", "symbol-duplicate-after-collect", "compare-zero-iff-equals", "symbol-identity",
@@ -502,6 +504,13 @@ def run(ctx, scripts=None):
             str_cases = [(i, j) for i in strs for j in strs]
             lines += ["strcmp %s %s" % (terms[i][1].hex() or "-", terms[j][1].hex() or "-") for i, j in str_cases]
             tot["string_loop_pairs"] = tot.get("string_loop_pairs", 0) + len(str_cases)
+            # the ITERATIVE mirrors of janet_equals / janet_compare (explicit traversal stack, Value/Traverse.lean): rows of container values
+            conts = [i for i in ids if terms[i][0] in "TS"]
+            step = max(1, len(conts) // (120 if quick else 400))
+            iter_rows = conts[::step] if name.startswith("generated") else conts
+            iter_off = len(lines)
+            lines += ["iterrow %d" % pos[i] for i in iter_rows]
+            tot["iterative_rows"] = tot.get("iterative_rows", 0) + len(iter_rows)
             mout = ctx.model(lines, exe=exe)
             tot["model_lines"] += len(lines)
             diffs = []
@@ -532,6 +541,18 @@ def run(ctx, scripts=None):
                 for (i, j), o in zip(str_cases, mout[2 * len(ids) + len(lay_cases):]):
                     if pr.capi[i][j] != o:
                         diffs.append({"op": "janet_string_compare / janet_string_equal (statement-level mirror)", "a": info(i), "b": info(j), "impl": pr.capi[i][j], "model": o})
+                for i, o in zip(iter_rows, mout[iter_off:]):
+                    orow, _, odepth = o.partition(" ")
+                    tot["iterative_max_stack"] = max(tot.get("iterative_max_stack", 0), int(odepth) if odepth.isdigit() else 0)
+                    irow = "".join(pr.capi[i][j] for j in ids)
+                    if nan[i] or any(nan[j] for j in ids):
+                        irow = "".join(cmp_only.get(ch, ch) if (nan[i] and nan[j]) else ch for ch, j in zip(irow, ids))
+                        orow = "".join(cmp_only.get(ch, ch) if (nan[i] and nan[j]) else ch for ch, j in zip(orow, ids))
+                    tot["iterative_pairs"] = tot.get("iterative_pairs", 0) + len(irow)
+                    if irow != orow:
+                        q = next((q for q in range(len(ids)) if q >= len(orow) or irow[q] != orow[q]), 0)
+                        diffs.append({"op": "janet_equals / janet_compare, iterative mirror (explicit traversal stack)", "a": info(i), "b": info(ids[q]),
+                                      "impl": irow[q], "model": orow[q] if q < len(orow) else "?"})
             tot["model_diffs"] += len(diffs)
             if diffs:
                 diffs_all += diffs[:5]
@@ -748,7 +769,9 @@ def run(ctx, scripts=None):
         "abstract_types_with_compare_or_hash_hooks": [list(h) for h in hooked],
         "content_classes": tot["classes"], "content_classes_with_several_constructions": tot["multi_classes"],
         "model_lines": tot["model_lines"], "model_diffs": tot["model_diffs"], "values_holding_nan_through_model": tot.get("nan_values_in_model", 0),
-        "string_loop_pairs_through_model": tot.get("string_loop_pairs", 0), "struct_layout_rebuilds": tot["layouts"],
+        "string_loop_pairs_through_model": tot.get("string_loop_pairs", 0),
+        "iterative_equals_compare_rows_through_model": tot.get("iterative_rows", 0), "iterative_equals_compare_pairs": tot.get("iterative_pairs", 0),
+        "iterative_model_deepest_traversal_stack": tot.get("iterative_max_stack", 0), "struct_layout_rebuilds": tot["layouts"],
         "symbols_checked_for_identity": tot["symbols"], "symcache": sym_summary,
         "symcache_histories_fresh_vm": symhist_summary, "symcache_histories_through_model": sh["model_histories"], "symcache_history_ops_through_model": sh["model_ops"],
         "struct_layout_scenario": lay_summary, "struct_layout_scenario_model_rebuilds": lay_model,
